@@ -667,7 +667,19 @@ def stream_buffer(ck):
             continue
         n_r += 1
         s = sl[0].slice
-        ok = q.dotted(s.lower) == pv and s.upper is not None and isinstance(s.upper, ast.BinOp) and isinstance(s.upper.op, ast.Add) and {q.dotted(s.upper.left), q.dotted(s.upper.right)} == {pv, psize}
+        if s.lower is None or s.upper is None:
+            ok = False  # a view from 0 / to the end: bytes already sent are offered again / more than asked
+        else:
+            lo = expand_expr(ck.repo, pk, s.lower)
+            up = expand_expr(ck.repo, pk, s.upper)
+            ok = True
+            for p0 in range(0, 4):
+                for z in range(1, 4):
+                    env_ = {pv: p0, "self._first_pos": p0, psize: z}
+                    try:
+                        ok = ok and q.fold(lo, env_) == p0 and q.fold(up, env_) == p0 + z
+                    except q.NotFoldable as ex:
+                        raise AnalysisError("cannot evaluate the slice returned by peek: %s" % ex)
         ck.ob("C12.buffer-pos", pk, r, ok, "peek returns head[pos : pos + size] with pos = _first_pos (bytes already sent are not offered again)")
     ck.floor("C12.buffer-pos", n_r, 2, "slicing returns in peek")
 
